@@ -69,6 +69,11 @@ class EngineBase:
 
     # ------------------------------------------------------------ obligations
     def oblige(self, st: State, label: str, kind: str, goal: Any, node: Any = None, serves: tuple | None = None) -> None:
+        if any(c is False for c in st.pc):
+            # a literal False was assumed on this path (a contract clause that is structurally false where it was
+            # applied): anything would be "proved" here. Such paths must have been pruned; this is a machinery error.
+            raise Unsupported(f"obligation {label} on a path whose condition contains a literal False "
+                              f"(contradictory assumption upstream; path {' '.join(st.note[-4:])})", node)
         if goal is True:
             # still count trivially true obligations (discharged syntactically)
             ob = Obligation(self.cur_func, label, kind, st.pc, True, getattr(node, "lineno", 0),
@@ -186,6 +191,9 @@ class EngineBase:
                 return True
             if o.kind in ("iter", "gen", "thunk", "cell", "opaque", "io"):
                 return True
+            model = self.reg.models.get(o.kind)
+            if model is not None and hasattr(model, "truth"):
+                return model.truth(self, st, v)
             raise Unsupported(f"truthiness of heap kind {o.kind}", node)
         if isinstance(v, (ClassVal, FuncVal, BoundMethod, ModuleVal, ExtVal)):
             return True
@@ -376,6 +384,8 @@ class EngineBase:
             fam = self.reg.adts[sort.arg]
             x = V.fresh_of_sort(name, fam.sort)
             inv = fam.invariant(x) if getattr(fam, "invariant", None) else []
+            if callable(sort.arg2):
+                inv = list(inv) + [sort.arg2(x)]      # refinement: e.g. "an IRI" among the generic terms
             return st, ADT(x, sort.arg), list(inv)
         if k in self.reg.models:
             return self.reg.models[k].make(self, st, sort, name)
